@@ -185,6 +185,8 @@ def run_case(case, ctx):
         elif vk == 'unit':
             v = np.zeros(d ** n)
             v[(d ** n) // 2] = 1.0
+        elif vk == 'zero':
+            v = np.zeros(d ** n)
         else:
             raise ValueError(vk)
         v0 = v.copy()
@@ -227,7 +229,7 @@ def _identity_cases(tier):
 def _from_vector_cases(tier):
     for d in (1, 2, 3):
         for n in (1, 2, 3, 4):
-            for vk in ('complex', 'real', 'product', 'unit'):
+            for vk in ('complex', 'real', 'product', 'unit', 'zero'):
                 yield ['from_vector', d, n, vk]
 
 
@@ -298,7 +300,7 @@ def spaces(tier, seed):
         Space('identity', core.chunked(_identity_cases(tier), 100), run_case=run_case, sig=sig,
               bounds={'d': [1, 2, 3], 'qd': 'A3^d', 'L': [1, 2, 3, 4], 'scale': [1, -2.5], 'dtype': ['float', 'complex']}),
         Space('from_vector', core.chunked(_from_vector_cases(tier), 8), run_case=run_case, sig=sig,
-              bounds={'d': [1, 2, 3], 'n': [1, 2, 3, 4], 'vector_kinds': ['complex', 'real', 'product', 'unit'], 'tol': 0}),
+              bounds={'d': [1, 2, 3], 'n': [1, 2, 3, 4], 'vector_kinds': ['complex', 'real', 'product', 'unit', 'zero'], 'tol': 0}),
         Space('split_merge', core.chunked(_split_cases(tier), 300), run_case=run_case, sig=sig,
               bounds={'d0,d1,D0,D2': [1, 2], 'charges': 'A2 quick / A3 thorough', 'distr': ['left', 'right', 'sqrt']}),
     ]
